@@ -9,9 +9,9 @@ import zlib
 import torch
 
 from .core import MachineryError
-from .aggsym_common import (EPS, F64, NORM_EPS, PE_NORM, ROSTER, Acc, build, call, cond_of, fmt, int_kernel,
-                            ld, maxdiff, mgda_gap, narrow_of, norm_eps_side, present, presented, rat_vec_equal,
-                            ref_of, scaled_sides, seed_of, split_padded)
+from .aggsym_common import (EPS, F64, NORM_EPS, PE_NORM, ROSTER, Acc, build, call, cond_of, config_col, config_exact,
+                            fmt, int_kernel, ld, maxdiff, mgda_gap, narrow_of, norm_eps_side, present, presented,
+                            rat_vec_equal, ref_of, scaled_sides, seed_of, split_padded)
 
 REG_LADDER = [1e-2, 1e-4, 1e-6, 1e-8, 1e-10, 1e-12]
 NORM_VARIANTS = [1e-4, 1e-2, 1e-6]
@@ -34,8 +34,11 @@ def variants(r: dict, s: dict):
         yield name, None, None, None
 
 
-def skip_reason(r: dict, cls: dict, e: int, relation: str) -> str | None:
-    if r["needs_rank"] and not cls["rankUnamb"]:
+def skip_reason(r: dict, cls: dict, e: int, relation: str, s: dict | None = None, vname: str = "") -> str | None:
+    cc = config_col(r, s, vname) if s is not None else None
+    if cc is not None and cc[0]["deg"] and not (vname == "ConFIGP" and s["prefDeg"]):
+        return "config_direction_exactly_zero"          # J^T w = 0: decided by the model, not part of any claim
+    if r["needs_rank"] and not cls["rankUnamb"] and cc is None:
         return "rank_ambiguous"
     if r["name"] == "IMTLG" and cls["imtlgDegenerate"]:
         return "imtlg_guard_degenerate"
@@ -98,6 +101,26 @@ def _compare(acc, pid, r, vname, s, e, gkey, seed, x_expect, x1, tol, what_rel, 
                 f"{tol:.3e}; expected {fmt(x_expect)} got {fmt(x1)}", {"seed": seed, "diff": d, "tol": tol})
 
 
+def _config_value(acc: Acc, pid: str, vname: str, s: dict, e: int, gkey: str, seed: int, cc, x, c: list, cmax: float,
+                  which: str = "") -> None:
+    """ConFIG where the model computes it: the code's value on 2^e diag(c) J against (sum_i c_i d_i) y / <y, y>."""
+    data, cond = cc
+    if isinstance(x, str):
+        _report(acc, pid, vname, s, e, gkey, "raises" + which, f"{vname} raised ({x}) on instance {s['id']} ({gkey}, scale 2^{e}), "
+                f"a matrix with independent columns on which the model computes ConFIG exactly", {"seed": seed})
+        return
+    expected = config_exact(data, c, e, s["den"])
+    tol = 64 * EPS * cond * ref_of(s["cls"], e, float(s["m"]), cmax)
+    d = maxdiff(x, expected)
+    acc.dev("ConFIG:value", d, tol)
+    acc.count("config_exact_value_cases")
+    if not d <= tol:
+        _report(acc, pid, vname, s, e, gkey, "config_value" + which,
+                f"{vname}{f'(diag({which}) J)' if which else ''} on instance {s['id']} ({gkey}, P={s['P']}, scale 2^{e}): independent columns, "
+                f"non-zero rows of one norm: the exact value is (sum_i c_i d_i) y / <y,y> with y={data['y']}, d={data['d']}, c={c}: "
+                f"{fmt(expected)}, the code returned {fmt(x)} (|diff|={d:.3e} > allowance {tol:.3e})", {"seed": seed, "diff": d, "tol": tol})
+
+
 # ------------------------------------------------------------------------------------------ C10
 
 
@@ -130,16 +153,19 @@ def one_object_histories(acc: Acc, job: dict, e: int, wide: bool) -> None:
             continue
         if r["kind"] == "conic" and e != job["scales"][0]:
             continue                                    # the conic solver is slow: first scale of the job only
-        why = skip_reason(r, cls, e, "rows")
+        why = skip_reason(r, cls, e, "rows", s0, vname)
         if why:
             acc.count("skipped:" + why)
             continue
+        cc = config_col(r, s0, vname)
         seed = seed_of(seed0, s0["id"], e % 97)
         for ptag, Jb in pres:
+            if ptag and cc is not None and not cls["rankUnamb"]:
+                continue                                # the wide presentation has dependent columns
             agg = build(vname)
             x0 = call(agg, Jb, seed)                    # the base matrix stays alive
             w1 = w1_of(agg, Jb, seed)
-            tol = (1e-4 if r["kind"] == "conic" else 64 * EPS * cond_of(r, cls, m, vname)) * ref_of(cls, e, w1)
+            tol = (1e-4 if r["kind"] == "conic" else 64 * EPS * (cc[1] if cc else cond_of(r, cls, m, vname))) * ref_of(cls, e, w1)
             done: list = []
             for s in seq:
                 idx = torch.tensor([i - 1 for i in s["rp"]], dtype=torch.long)
@@ -251,7 +277,7 @@ def eval_rows(job: dict):
                 for vname, extra, expected, vskip in variants(r, s):
                     if only and vname != only:
                         continue
-                    why = vskip or skip_reason(r, cls, e, "rows")
+                    why = vskip or skip_reason(r, cls, e, "rows", s, vname)
                     if why:
                         acc.count("skipped:" + why)
                         continue
@@ -262,6 +288,9 @@ def eval_rows(job: dict):
                     if vname == "ConFIGP" and s["prefDeg"]:
                         config_degenerate(acc, pid, s, e, gkey, [x1], seed)
                         continue
+                    cc = config_col(r, s, vname)
+                    if cc is not None:
+                        _config_value(acc, pid, vname, s, e, gkey, seed, cc, x1, [1] * m, 1.0)
                     if r["kind"] == "exact":
                         ok = (not isinstance(x1, str)) and rat_vec_equal(x1, expected, e)[0]
                         if not ok:
@@ -275,7 +304,7 @@ def eval_rows(job: dict):
                             a0 = build(r["name"], s0["P0"], s0["W0"], extra)
                             cache[ck] = (a0, call(a0, J0t, seed), w1_of(a0, J0t, seed))
                         a0, x0, w1 = cache[ck]
-                        tol = (1e-4 if r["kind"] == "conic" else 64 * EPS * cond_of(r, cls, m, r["name"])) * ref_of(cls, e, w1)
+                        tol = (1e-4 if r["kind"] == "conic" else 64 * EPS * (cc[1] if cc else cond_of(r, cls, m, r["name"]))) * ref_of(cls, e, w1)
                         _compare(acc, pid, r, vname, s, e, gkey, seed, x0, x1, tol,
                                  "A_{pi P}(pi J) = A_P(J)", J0t, Jt, a0, a1)
                     if nontrivial and len(set(s["P0"])) > 1:
@@ -356,7 +385,7 @@ def eval_cols(job: dict):
                 for vname, extra, expected, vskip in variants(r, s):
                     if only and vname != only:
                         continue
-                    why = vskip or skip_reason(r, cls, e, "cols")
+                    why = vskip or skip_reason(r, cls, e, "cols", s, vname)
                     if why:
                         acc.count("skipped:" + why)
                         continue
@@ -367,6 +396,9 @@ def eval_cols(job: dict):
                     if vname == "ConFIGP" and s["prefDeg"]:
                         config_degenerate(acc, pid, s, e, gkey, [x1], seed)
                         continue
+                    cc = config_col(r, s, vname)
+                    if cc is not None:
+                        _config_value(acc, pid, vname, s, e, gkey, seed, cc, x1, [1] * m, 1.0)
                     w1 = w1_of(a1, Jt, seed)
                     ref = ref_of(cls, e, w1)
                     hk = ("agg", vname, tuple(s["P"]), tuple(s["W"]))
@@ -401,7 +433,7 @@ def eval_cols(job: dict):
                             cache[ck] = (a0, call(a0, J0t, seed))
                         a0, x0 = cache[ck]
                         xe = x0 if isinstance(x0, str) else x0 @ Qt
-                        tol = (1e-4 if r["kind"] == "conic" else 64 * EPS * cond_of(r, cls, m, r["name"])) * ref
+                        tol = (1e-4 if r["kind"] == "conic" else 64 * EPS * (cc[1] if cc else cond_of(r, cls, m, r["name"]))) * ref
                         _compare(acc, pid, r, vname, s, e, gkey, seed, xe, x1, tol,
                                  "A(JQ) = A(J)Q" if not s["colperm"] else "column permutation / zero columns commute",
                                  J0t, Jt, a0, a1)
@@ -428,7 +460,7 @@ def eval_cols(job: dict):
                                             f"(|diff|={d:.3e})", {"seed": seed})
                         # x = w @ J in floats whatever way w was obtained, so only ConFIG (direction from a
                         # pseudo-inverse) needs the conditioning of the instance here
-                        ck_ = cond_of(r, cls, m, r["name"]) if r["name"].startswith("ConFIG") else 4.0 * m * m
+                        ck_ = (cc[1] if cc else cond_of(r, cls, m, r["name"])) if r["name"].startswith("ConFIG") else 4.0 * m * m
                         xm, xpad = split_padded(x1, s)
                         if padded:                 # the unit vectors of the padded columns are in the kernel as well
                             tolk = 64 * EPS * ck_ * ref
@@ -545,7 +577,7 @@ def eval_scale(job: dict):
                 for vname, extra, _, _ in variants(r, s):
                     if only and vname != only:
                         continue
-                    why = skip_reason(r, cls, e, "scale")
+                    why = skip_reason(r, cls, e, "scale", s, vname)
                     if why:
                         acc.count("skipped:" + why)
                         continue
@@ -555,6 +587,17 @@ def eval_scale(job: dict):
                     if vname == "ConFIGP" and s["prefDeg"]:
                         config_degenerate(acc, pid, s, e, gkey, xs, seed)
                         continue
+                    cc = config_col(r, s, vname)
+                    if cc is not None:
+                        # the three values against the model's; the sign of the total length sum_i c_i d_i is the
+                        # model's (exact): triples on which it CHANGES are the ones on which |l| u would not be linear
+                        for which, x, c, cm in zip(("x", "x1", "x2"), xs, (xc, c1, c2), cmaxs):
+                            _config_value(acc, pid, vname, s, e, gkey, seed, cc, x, c, cm, which)
+                        sg = cc[0]["sg"]
+                        acc.count("config_exact_triples" + (":tall" if not cls["rankUnamb"] else ""))
+                        if min(sg.values()) < 0 < max(sg.values()):
+                            acc.count("config_exact_triples_on_which_the_total_length_changes_sign")
+                            acc.nontriv.append((s["id"], gkey, vname, "length-sign-change"))
                     if any(isinstance(x, str) for x in xs):
                         if not all(isinstance(x, str) for x in xs):
                             _report(acc, pid, vname, s, e, gkey, "raises", f"{vname}: raised on some of the three scalings "
@@ -570,7 +613,7 @@ def eval_scale(job: dict):
                                         f"the linear value is {s['lin'][which][key]}", {"seed": seed})
                     else:
                         w1 = w1_of(ag, Ms[0], seed)
-                        cond = cond_of(r, cls, m, r["name"])
+                        cond = cc[1] if cc else cond_of(r, cls, m, r["name"])
                         tol = 64 * EPS * cond * sum(k * ref_of(cls, e, w1, cm) for k, cm in zip((1, a, b), cmaxs))
                         d = maxdiff(xs[0], a * xs[1] + b * xs[2])
                         acc.dev(r["name"], d, tol)
